@@ -130,7 +130,11 @@ def kv_args(body):
 
 
 # ---------------------------------------------------------------------------- expressions
-TOK = re.compile(r"\s*(?:(0x[0-9a-fA-F_]+)|(\d[\d_]*\.\d[\d_]*(?:[eE][+-]?\d+)?|\d[\d_]*[eE][+-]?\d+)|(\d[\d_]*)|([-+*/()]))")
+# numeric literals as Rust writes them: hex/binary/octal integers, decimal integers, floats with optional
+# fraction digits / exponent, optional type suffix (`u8`, `i64`, `f32`, `_f64`, `usize` ...)
+SUF = r"(?:_?(?:[ui](?:8|16|32|64|128|size)|f32|f64))?"
+TOK = re.compile(r"\s*(?:(0x[0-9a-fA-F_]+|0b[01_]+|0o[0-7_]+)" + SUF + r"|(\d[\d_]*\.(?:\d[\d_]*)?(?:[eE][+-]?\d+)?|\d[\d_]*[eE][+-]?\d+)" + SUF +
+                 r"|(\d[\d_]*)(_?f32|_?f64)|(\d[\d_]*)" + SUF + r"|([-+*/()]))")
 
 
 def parse_expr(s):
@@ -142,13 +146,20 @@ def parse_expr(s):
         if not m:
             raise TranslateError(f"cannot tokenise expression {s!r} at {i}")
         if m.group(1):
-            toks.append(("int", int(m.group(1).replace("_", ""), 16)))
+            t = m.group(1).replace("_", "")
+            toks.append(("int", int(t[2:], {"x": 16, "b": 2, "o": 8}[t[1]])))
         elif m.group(2):
-            toks.append(("dec", m.group(2).replace("_", "")))
+            t = m.group(2).replace("_", "")
+            if t.endswith("."):
+                t += "0"
+            t = t.replace(".e", ".0e").replace(".E", ".0E")
+            toks.append(("dec", t))
         elif m.group(3):
-            toks.append(("int", int(m.group(3).replace("_", ""))))
+            toks.append(("dec", m.group(3).replace("_", "") + ".0"))      # `4f64`: a float literal
+        elif m.group(5):
+            toks.append(("int", int(m.group(5).replace("_", ""))))
         else:
-            toks.append(("op", m.group(4)))
+            toks.append(("op", m.group(6)))
         i = m.end()
     pos = [0]
 
@@ -231,7 +242,7 @@ def parse_dfs(repo, consts):
             if ("inv" in a) == ("ord" in a):
                 raise TranslateError(f"df! {a['id']}: exactly one of inv/ord expected")
             d = {"id": a["id"], "dt": a["dt"], "it": a["it"], "kind": CARRIER[a["it"]][0], "w": CARRIER[a["it"]][1],
-                 "len": int(a["len"]), "res": parse_expr(a["res"]) if "res" in a else None,
+                 "len": int_of_expr(parse_expr(a["len"])), "res": parse_expr(a["res"]) if "res" in a else None,
                  "bias": parse_expr(a["bias"]) if "bias" in a else None,
                  "round": None if "round" not in a else {"true": True, "false": False}[a["round"]],
                  "inv": int_of_expr(parse_expr(a["inv"])) if "inv" in a else None,
@@ -245,7 +256,7 @@ def parse_dfs(repo, consts):
             dfs[a["id"]] = d
             order.append(a["id"])
         else:
-            strs[a["id"]] = {"id": a["id"], "cap": consts[a["cap"]], "cap_name": a["cap"], "len_bits": int(a["len_bits"])}
+            strs[a["id"]] = {"id": a["id"], "cap": consts[a["cap"]], "cap_name": a["cap"], "len_bits": int_of_expr(parse_expr(a["len_bits"]))}
     mods = re.findall(r"pub\s+mod\s+(\w+)\s*;", src)
     # feature gates of the hand-written df modules and their `use super::…` dependencies
     df_gates = {}
@@ -311,7 +322,7 @@ def parse_msgs(repo, consts):
                 elif name == "frag_vec":
                     f.update(frag_id=a["frag_id"], cap=consts[a["cap_name"]], cap_name=a["cap_name"])
                 elif name == "frag_vec_with_len":
-                    f.update(frag_id=a["frag_id"], cap=consts[a["cap"]], cap_name=a["cap"], len_bits=int(a["len_bits"]))
+                    f.update(frag_id=a["frag_id"], cap=consts[a["cap"]], cap_name=a["cap"], len_bits=int_of_expr(parse_expr(a["len_bits"])))
                 elif name == "frag_grid16p":
                     f.update(frag_id=a["frag_id"])
                 elif name == "msm_data_seg_frag":
@@ -329,7 +340,8 @@ def parse_msgs(repo, consts):
 
 def parse_mod(repo):
     src = read(repo, "src/msg/mod.rs")
-    consts = {m.group(1): int(m.group(2)) for m in re.finditer(r"pub\s+const\s+(\w+)\s*:\s*usize\s*=\s*(\d+)\s*;", src)}
+    consts = {m.group(1): int_of_expr(parse_expr(m.group(2)))
+              for m in re.finditer(r"pub\s+const\s+(\w+)\s*:\s*usize\s*=\s*([0-9][0-9a-zA-Z_]*)\s*;", src)}
     gates = {}
     for m in re.finditer(r"#\[cfg\(any\((.*?)\)\)\]\s*mod\s+(\w+)\s*;", src, flags=re.S):
         gates[m.group(2)] = re.findall(r'feature\s*=\s*"(\w+)"', m.group(1))
@@ -377,10 +389,11 @@ def parse_dispatch(repo):
         raise TranslateError("message.rs: expected one message! invocation")
     rows = []
     for p in split_top(inv[0][1]):
-        m = re.match(r'^"(\w+)"\s*:\s*(\w+)\s*\(\s*(\w+)\s*\)\s*=\s*(\d+)$', p.strip())
+        m = re.match(r'^"(\w+)"\s*:\s*(\w+)\s*\(\s*(\w+)\s*\)\s*=\s*([0-9][0-9a-zA-Z_]*)$', p.strip())
         if not m:
             raise TranslateError(f"message! row {p!r}")
-        rows.append({"feature": m.group(1), "variant": m.group(2), "module": m.group(3), "number": int(m.group(4))})
+        rows.append({"feature": m.group(1), "variant": m.group(2), "module": m.group(3),
+                     "number": int_of_expr(parse_expr(m.group(4)))})
     return rows
 
 
@@ -654,6 +667,9 @@ def main():
             translate_rust.emit_featdrv(schema, args.out)
     except TranslateError as e:
         print(f"TRANSLATE-ERROR: {e}")
+        sys.exit(3)
+    except (KeyError, ValueError, IndexError, AttributeError, OSError) as e:
+        print(f"TRANSLATE-ERROR: sources outside the translated grammar: {type(e).__name__}: {e}")
         sys.exit(3)
     print(f"translated: {len(schema['dfs'])} df!, {len(schema['strs'])} string dfs, {len(schema['frags'])} fragments, "
           f"{len(schema['dispatch'])} messages, {len(schema['sig_tables'])} signal tables, "
